@@ -90,6 +90,41 @@ def hook_events(fn):
     return ev
 
 
+def coverage_hook(db, fn):
+    """one hook of coverage_state evaluated (sa/bits.py) on an abstract result map and rule stack, for an empty and a non-empty stack of enclosing rules:
+    which counters are incremented (as paths into the map, so "the branch under the parent" is a matter of value, not of statement order) and what
+    the rule stack looks like afterwards"""
+    from ..bits import Space, Interp, St, Rec, Opaque, Handle, StackV, outcomes, Unmodelled
+    name = fn['n']; probs = []
+    RULE = Opaque('RULE'); PARENT = Opaque('PARENT')
+    for parent in (False, True):
+        below = (PARENT,) if parent else ()
+        # start / raise see the enclosing rules; the closing hooks see the rule itself on top (pushed by its start)
+        initial = below if name in ('start', 'raise', 'raise_nested') else below + (RULE,)
+        if name in ('raise', 'raise_nested') and not parent: initial = ()
+        sp = Space(); sp.var('x', 2)
+        it = Interp(db, sp)
+        it.intercept['tao::pegtl::demangle'] = lambda itp, e, ov, av, st: iter([(RULE, st)])
+        st = St(sp.full()); st.env['this'] = Rec({'result': Handle(('result',)), 'stack': StackV(initial)})
+        for p in fn['params']: st.env[p['id']] = Opaque('arg')
+        for kind, v, s in outcomes(it, fn, st):
+            if kind not in ('fall', 'return'):
+                probs.append('the hook ends with %s (%s enclosing rule)' % (kind, 'with an' if parent else 'without')); continue
+            incs = sorted(e[1] for e in s.eff if e[0] == 'inc')
+            want = [('result', ('at', 'RULE'), name)]
+            top = initial[-1] if name in ('start', 'raise', 'raise_nested') and initial else (below[-1] if below and name not in ('start', 'raise', 'raise_nested') else None)
+            if top is not None: want.append(('result', ('at', top.tag), 'branches', ('at', 'RULE'), name))
+            if incs != sorted(want):
+                def show(pth): return '.'.join(x if isinstance(x, str) else '[%s]' % x[1] for x in pth)
+                probs.append('%s the hook counts %s, expected %s' % ('inside another rule' if parent else 'at the top level', [show(x) for x in incs] or 'nothing', [show(x) for x in sorted(want)]))
+            after = s.env['this'].f['stack'].items
+            want_stack = below + (RULE,) if name == 'start' else (initial if name in ('raise', 'raise_nested') else below)
+            if tuple(x.tag for x in after) != tuple(x.tag for x in want_stack):
+                probs.append('the rule stack after %s is %s, expected %s' % (name, [x.tag for x in after], [x.tag for x in want_stack]))
+        for k2, m2, l2 in it.findings: probs.append(m2)
+    return sorted(set(probs))
+
+
 def stateful_controls(R):
     """K-state: the shipped stateful controls keep a rule stack in step with the protocol and count every event once.
     coverage: start counts the rule and, under the rule then on top, the branch, and pushes afterwards; success / failure / unwind pop first
@@ -100,18 +135,12 @@ def stateful_controls(R):
     for fn in cdb.order:
         q = fn['q']
         if q.startswith('tao::pegtl::internal::coverage_state::') and fn['n'] in COUNTERS:
-            ev = hook_events(fn); name = fn['n']; probs = []
-            incs = [e for e in ev if e[0] == 'inc']
-            want_inc = [('inc', name, 'own', False, False), ('inc', name, 'branch', True, True)]
-            if incs != want_inc: probs.append('counts %s, expected the own %s counter once and, guarded by a non-empty stack, the %s counter of this branch under the rule on top of the stack' % ([e[1:3] for e in incs], name, name))
-            moves = [e[0] for e in ev if e[0] in ('push', 'pop')]
-            if name == 'start':
-                if moves != ['push']: probs.append('start must push the rule exactly once (%s)' % moves)
-                elif ev.index(('push',)) < max(ev.index(e) for e in incs) if incs else False: probs.append('start pushes the rule before counting the branch: the branch is filed under the rule itself')
-            elif name in ('success', 'failure', 'unwind'):
-                if moves != ['pop']: probs.append('%s must pop the rule exactly once (%s)' % (name, moves))
-                elif incs and ev.index(('pop',)) > min(ev.index(e) for e in incs): probs.append('%s counts before popping: the branch is filed under the rule itself, not under its parent' % name)
-            elif moves: probs.append('%s must not move the rule stack' % name)
+            name = fn['n']
+            try: probs = coverage_hook(cdb, fn)
+            except Exception as ex:
+                if type(ex).__name__ in ('Unmodelled', 'Blowup'):
+                    R.broke('coverage_state::%s: %s' % (name, ex)); continue
+                raise
             n['coverage'] += 1
             R.ob(ok=not probs, key=('cov', fn['disp']))
             for pmsg in probs: R.violation('K-state', 'contrib/coverage.hpp::internal::coverage_state::' + name, pmsg, {'function': fn['disp'][:160]}, key=('K', 'cov', name, pmsg))
